@@ -1299,7 +1299,11 @@ func (ex *Explorer) inline(fi *core.FuncInfo, call *ast.CallExpr, st *State, inD
 			} else if id, ok := last.(*ast.Ident); ok {
 				if v, ok := retEnv(o, id.Name); ok {
 					o.retNil = v
+				} else if isSentinelError(ex.Info, id) {
+					o.retNil = F
 				}
+			} else if se, ok := last.(*ast.SelectorExpr); ok && isSentinelError(ex.Info, se.Sel) {
+				o.retNil = F
 			}
 		}
 		o.Ret, o.RetStmt, o.Panic = st.Ret, st.RetStmt, false
@@ -1378,4 +1382,16 @@ func Is(f *types.Func, pkg, recv, name string) bool {
 		return n.Obj().Name() == recv
 	}
 	return false
+}
+
+// isSentinelError: a package-level variable of an error type (errBrokenChunk, io.EOF …). Such
+// variables are initialised once with a non-nil error and compared by identity; returning one
+// returns a non-nil error.
+func isSentinelError(info *types.Info, id *ast.Ident) bool {
+	v, ok := info.ObjectOf(id).(*types.Var)
+	if !ok || v.IsField() || v.Pkg() == nil || v.Parent() != v.Pkg().Scope() {
+		return false
+	}
+	errT, _ := types.Universe.Lookup("error").Type().Underlying().(*types.Interface)
+	return errT != nil && types.Implements(v.Type(), errT)
 }
